@@ -56,9 +56,18 @@ pub fn new_dir() -> PathBuf {
     d
 }
 
+/// the release-profile binary (panic = "abort", LTO), when the thorough tier of C16 built it
+pub fn release_cli_path() -> Option<PathBuf> {
+    std::env::var("VERIF_CLI_RELEASE").ok().map(PathBuf::from).filter(|p| p.exists())
+}
+
 /// Run the CLI with `args` in a fresh directory holding `files` (name, bytes).
 pub fn run_cli(args: &[String], files: &[(String, Vec<u8>)], timeout: Duration) -> Result<CliRun, String> {
-    let bin = cli_path();
+    run_bin(&cli_path(), args, files, timeout)
+}
+
+pub fn run_bin(bin: &Path, args: &[String], files: &[(String, Vec<u8>)], timeout: Duration) -> Result<CliRun, String> {
+    let bin = bin.to_path_buf();
     if !bin.exists() {
         return Err(format!("CLI binary {} not found (run ./setup.sh or ./check.sh)", bin.display()));
     }
